@@ -44,8 +44,7 @@ def install(ip, log):
         return Enum(models.OK, [Agg([rest, v])])
 
     def m_map(ip_, st, fr, t, args):
-        f = args[0]
-        return Opaque("nom-map", (f.data if isinstance(f, Opaque) else None, args[1]))
+        return Opaque("nom-map", (args[0], args[1]))
 
     def m_count(ip_, st, fr, t, args):
         f = args[0]
@@ -57,65 +56,98 @@ def install(ip, log):
         ln = len(a.data) if isinstance(a, Opaque) and a.tag == "str" and isinstance(a.data, str) else None
         return Opaque("nom-tag", ln)
 
-    def apply(ip_, st, fr, t, parser, inp):
-        if isinstance(parser, Ref):
+    # Parsers are applied in continuation-passing style so that combinators compose: integer parsers, parser functions of the crate
+    # (followed into their bodies), tuples of parsers (applied in sequence), map(parser, function or closure), tag, count.
+    # A step yields ("val", value) - the result of the whole model call - or ("call", body key, args, transform): continue in a body.
+    def as_model_result(r):
+        if r is None:
+            return None
+        if r[0] == "val":
+            return r[1]
+        return ("tailcall", r[1], r[2], r[3])
+
+    def as_transform_result(r, fallback):
+        if r is None:
+            return fallback
+        if r[0] == "val":
+            return r[1]
+        return [("call", None, r[1], r[2], r[3], None)]
+
+    def body_of(ip_, path):
+        for c in (path, ip_.fn_full.get(path) if path else None):
+            if c in ip_.f.bodies:
+                return c
+        return None
+
+    def parse(ip_, st, parser, inp, cont):
+        """cont(st, rest cursor, value) -> step"""
+        d_ = 3
+        while isinstance(parser, Ref) and d_ > 0:
             parser = ip_.read_loc(st, parser.root, parser.path)
+            d_ -= 1
         d_ = 3
         while isinstance(inp, Ref) and d_ > 0:
             inp = ip_.read_loc(st, inp.root, inp.path)
             d_ -= 1
-        if isinstance(parser, Agg) and parser.fields and all(isinstance(x, Opaque) and x.tag == "fn" for x in parser.fields) and isinstance(inp, Opaque) and inp.tag == "cur":
-            # a tuple of integer parsers applied in sequence: (be_u32, be_u32, ...).parse(input)
-            cur_ = inp
-            vals = []
-            for x in parser.fields:
-                r = int_parse(x.data or "", cur_)
-                if r is None:
-                    return None
+        if not (isinstance(inp, Opaque) and inp.tag == "cur"):
+            return None
+        if isinstance(parser, Opaque) and parser.tag == "fn":
+            r = int_parse(parser.data or "", inp)
+            if r is not None:
                 rest, v, endian, n = r
-                log.append((cur_.data, n, endian))
-                st.add_eff(("parse-int", cur_.data, n, endian))
-                vals.append(v)
-                cur_ = rest
-            return Enum(models.OK, [Agg([cur_, Agg(vals)])])
-        if not isinstance(parser, Opaque) or not (isinstance(inp, Opaque) and inp.tag == "cur"):
+                log.append((inp.data, n, endian))
+                st.add_eff(("parse-int", inp.data, n, endian))
+                return cont(st, rest, v)
+            key = body_of(ip_, parser.data)
+            if key is None:
+                return None
+
+            def transform(st2, ret, cont=cont):
+                if isinstance(ret, Enum) and ret.variant == models.OK and ret.fields and isinstance(ret.fields[0], Agg) and len(ret.fields[0].fields) == 2:
+                    rest2, v2 = ret.fields[0].fields
+                    return as_transform_result(cont(st2, rest2, v2), Opaque("nom-unfollowed"))
+                return ret      # the error of the element parser is the error of the whole parser
+            return ("call", key, [inp], transform)
+        if isinstance(parser, Agg) and parser.fields and not (parser.tag in ip_.f.bodies if isinstance(parser.tag, str) else False) \
+                and all(isinstance(x, (Opaque, Agg, Ref)) for x in parser.fields):
+            fields = list(parser.fields)
+
+            def seq(st_, i, cur_, vals):
+                if i == len(fields):
+                    return cont(st_, cur_, Agg(vals))
+                return parse(ip_, st_, fields[i], cur_, lambda st2, rest, v, i=i, vals=vals: seq(st2, i + 1, rest, vals + [v]))
+            return seq(st, 0, inp, [])
+        if not isinstance(parser, Opaque):
             return None
         if parser.tag == "nom-tag" and parser.data is not None:
             st.add_eff(("parse-tag", inp.data, parser.data))
-            return Enum(models.OK, [Agg([cur(inp.data + parser.data), Opaque("matched")])])
+            return cont(st, cur(inp.data + parser.data), Opaque("matched"))
         if parser.tag == "nom-count":
             f, n = parser.data
             r = int_parse(f or "", inp)
             if r is not None and n is not None:
                 st.add_eff(("parse-count", inp.data, n * r[3]))
-                return Enum(models.OK, [Agg([cur(inp.data + n * r[3]), Opaque("vec", ("counted", None))])])
+                return cont(st, cur(inp.data + n * r[3]), Opaque("vec", ("counted", None)))
             return None
         if parser.tag == "nom-map":
             f, g = parser.data
-            r = int_parse(f or "", inp)
-            if r is not None and isinstance(g, Opaque) and g.tag == "fn":
-                # map(parser, function item): a function of the crate (e.g. an `impl From<u32>`), resolved through its instantiation
-                cands = [g.data, ip_.fn_full.get(g.data)]
-                key = next((c for c in cands if c in ip_.f.bodies), None)
-                if key is None:
-                    return None
-                rest, v, endian, n = r
-                st.add_eff(("parse-int", inp.data, n, endian))
 
-                def transform_fn(st2, ret, rest=rest):
-                    return Enum(models.OK, [Agg([rest, ret])])
-                return ("tailcall", key, [v], transform_fn)
-            if r is None or not isinstance(g, Agg) or g.tag not in ip_.f.bodies:
+            def after(st2, rest, v, g=g, cont=cont):
+                if isinstance(g, Opaque) and g.tag == "fn":
+                    key = body_of(ip_, g.data)      # a function of the crate (e.g. an `impl From<u32>`), resolved through its instantiation
+                    if key is None:
+                        return None
+                    return ("call", key, [v], lambda st3, ret, rest=rest: as_transform_result(cont(st3, rest, ret), Opaque("nom-unfollowed")))
+                if isinstance(g, Agg) and g.tag in ip_.f.bodies:
+                    tmp = ("tmpenv", st2.count("tmpenv"))
+                    st2.mem[tmp] = g
+                    return ("call", g.tag, [Ref(tmp, ()), v], lambda st3, ret, rest=rest: as_transform_result(cont(st3, rest, ret), Opaque("nom-unfollowed")))
                 return None
-            rest, v, endian, n = r
-            st.add_eff(("parse-int", inp.data, n, endian))
-            tmp = ("tmpenv", st.count("tmpenv"))
-            st.mem[tmp] = g
-
-            def transform(st2, ret, rest=rest):
-                return Enum(models.OK, [Agg([rest, ret])])
-            return ("tailcall", g.tag, [Ref(tmp, ()), v], transform)
+            return parse(ip_, st, f, inp, after)
         return None
+
+    def apply(ip_, st, fr, t, parser, inp):
+        return as_model_result(parse(ip_, st, parser, inp, lambda st2, rest, v: ("val", Enum(models.OK, [Agg([rest, v])]))))
 
     def m_parse(ip_, st, fr, t, args):
         return apply(ip_, st, fr, t, args[0], args[1])
